@@ -19,7 +19,9 @@ LEAN_KEYWORDS = {"end", "from", "at", "then", "do", "have", "show", "fun", "open
                  "Type", "Prop", "Sort", "forall", "exists", "calc", "using", "infix", "notation", "macro", "syntax",
                  "universe", "example", "abbrev", "axiom", "return", "for", "unless", "try", "catch", "finally",
                  "mut", "nomatch", "nofun", "obtain", "suffices", "termination_by", "decreasing_by", "set_option",
-                 "attribute", "prefix", "postfix", "infixl", "infixr", "noncomputable", "partial", "unsafe", "opaque"}
+                 "attribute", "prefix", "postfix", "infixl", "infixr", "noncomputable", "partial", "unsafe", "opaque",
+                 # overloaded constants of the namespaces the generated files open (ambiguous in patterns)
+                 "read", "write"}
 
 
 def lname(n):
@@ -417,6 +419,14 @@ class ExprMixin:
             c = self.lookup_const(tyname, last, ctx)
             if c is not None:
                 return c
+            # `module::CONST`: a constant at the top level of that module's file
+            if len(segs) == 2 and (None, last) in self.items.consts and tyname not in self.items.structs:
+                where = self.items.consts[(None, last)][2]
+                if where.startswith(tyname + "/mod.rs:") or where.startswith(tyname + ".rs:") or \
+                        ("/" + tyname + ".rs:") in where or ("/" + tyname + "/mod.rs:") in where:
+                    c = self.lookup_const(None, last, ctx)
+                    if c is not None:
+                        return c
         raise ShapeError(f"{ctx.what}: unknown path `{'::'.join(segs)}`")
 
     def fresh_any(self):
@@ -1014,6 +1024,8 @@ def assigned_names(node, out):
                 lhs = lhs[1]
             if lhs[0] == "path" and len(lhs[1]) == 1:
                 out.add(lhs[1][0])
+        if node and node[0] == "ref" and len(node) == 3 and node[1][0] == "path" and len(node[1][1]) == 1:
+            out.add(node[1][1][0])      # `&mut x`
         if node and node[0] == "mcall" and node[2] == "copy_from_slice":
             lhs = node[1]
             while lhs[0] in ("index", "field", "deref"):
@@ -1439,11 +1451,28 @@ class StmtMixin:
             if f not in b[2]:
                 raise ShapeError(f"{ctx.what}: no field {f}")
             fl, fty = b[2][f]
-            for fname, _fty, isref in self.struct_fields(b[1], ctx.what):
-                if fname == f and isref:
-                    raise ShapeError(f"{ctx.what}: assignment to the reference field {f}")
+            if self.items.structs[b[1]][0] == "named":
+                for fname, _fty, isref in self.struct_fields(b[1], ctx.what):
+                    if fname == f and isref:
+                        raise ShapeError(f"{ctx.what}: assignment to the reference field {f}")
             self.unify(fty, v.ty, ctx.what)
             return self.let_in([(fl, self.value(v, ctx))], cont(env), v.ok)
+        if lhs[0] == "field" and lhs[1][0] == "path" and len(lhs[1][1]) == 1 and lhs[1][1][0] in env and \
+                env[lhs[1][1][0]][0] == "val" and self.res(env[lhs[1][1][0]][2])[0] == "tuple" and lhs[2].isdigit():
+            # one component of a local tuple
+            n = lhs[1][1][0]
+            tt = self.res(env[n][2])
+            idx = int(lhs[2])
+            if idx >= len(tt[1]):
+                raise ShapeError(f"{ctx.what}: no component {idx}")
+            self.unify(tt[1][idx], v.ty, ctx.what)
+            comps = []
+            for i in range(len(tt[1])):
+                if i == idx:
+                    comps.append(self.value(v, ctx))
+                else:
+                    comps.append(env[n][1] + ".2" * i + (".1" if i < len(tt[1]) - 1 else ""))
+            return self.let_in([(env[n][1], "(" + ", ".join(comps) + ")")], cont(env), v.ok)
         if lhs[0] == "index" and lhs[1][0] == "path" and len(lhs[1][1]) == 1 and lhs[2][0] != "range":
             n = lhs[1][1][0]
             if n not in env or env[n][0] != "val" or self.res(env[n][2])[0] != "bytes":
@@ -1489,7 +1518,20 @@ class StmtMixin:
                     ok = conj(ok, f"({hiv.lean} ≤ {ln}.length)")
                 binds_to = f"{head}{src.lean} ++ List.drop {hiv.lean} {ln}"
         if dlen is None or st[1] is None:
-            raise ShapeError(f"{ctx.what}: copy_from_slice with lengths that are not evident (it panics on a mismatch)")
+            # `dst[a..a+n].copy_from_slice(&src[b..b+n])` with the same expression `n`
+            def sym_len(r):
+                if r is not None and r[0] == "range" and r[1] is not None and r[2] is not None and not r[3] and \
+                        r[2][0] == "bin" and r[2][1] == "+" and r[2][2] == r[1]:
+                    return r[2][3]
+                return None
+            sa = args[0]
+            while sa[0] == "ref":
+                sa = sa[1]
+            l1 = sym_len(rng)
+            l2 = sym_len(sa[2]) if sa[0] == "index" else None
+            if l1 is None or l1 != l2:
+                raise ShapeError(f"{ctx.what}: copy_from_slice with lengths that are not evident (it panics on a mismatch)")
+            return self.let_in([(ln, binds_to)], cont(env), ok)
         if dlen != st[1]:
             raise ShapeError(f"{ctx.what}: copy_from_slice of {st[1]} bytes into {dlen} bytes always panics")
         return self.let_in([(ln, binds_to)], cont(env), ok)
